@@ -173,8 +173,8 @@ def algebra_shard(name, seed, n_examples):
             if draw(st.integers(0, 4)) == 0:
                 x = draw(st.one_of(st.integers(-10, 10), st.integers(-(1 << 300), 1 << 300), st.integers(0, p - 1),
                                    st.sampled_from([p, -p, 2 * p, p - 1, p + 1, 1 - p, 0])))
-                case = {"config": name, "part": "inverse", "x": x}
-                msg = inverse_case(cx, x)
+                case = {"config": name, "part": "inverse", "x": x, "deep": draw(st.booleans())}
+                msg = inverse_case(cx, x, case["deep"])
                 stats.case(case, x % p != 0 and not 0 < x < p, ("inverse",), sample_cap=2)
                 if msg:
                     raise core.Violation(case, msg, "inverse")
@@ -246,10 +246,30 @@ def algebra_shard(name, seed, n_examples):
     return stats
 
 
-def inverse_case(cx, x):
+HEADROOM = 60      # interpreter frames left for the library when it is called from deep inside the user's own recursion
+
+
+def call_deep(fn, *a):
+    """call fn(*a) with only HEADROOM frames left below the recursion limit (a recursive user function several hundred
+    frames deep that divides, compares or asserts non-zero)"""
+    import sys
+    depth = 0
+    f = sys._getframe()
+    while f is not None:
+        depth += 1
+        f = f.f_back
+
+    def down(k):
+        if k <= 0:
+            return fn(*a)
+        return down(k - 1)
+    return down(sys.getrecursionlimit() - depth - HEADROOM - 2)
+
+
+def inverse_case(cx, x, deep=False):
     p = cx.p
     try:
-        y = cx.mod.fieldinverse(x)
+        y = call_deep(cx.mod.fieldinverse, x) if deep else cx.mod.fieldinverse(x)
     except ZeroDivisionError:
         if x % p == 0:
             return None
@@ -267,7 +287,7 @@ def replay(case):
     cx = Ctx(case["config"])
     try:
         if case["part"] == "inverse":
-            return inverse_case(cx, case["x"])
+            return inverse_case(cx, case["x"], case.get("deep", False))
         if case["part"] == "modulus":
             m = cx.mod.get_modulus()
             return None if m == backends.curve_order(case["config"]) and backends.miller_rabin(m) else "modulus wrong"
